@@ -81,6 +81,117 @@ def _mounted(tasks, mount, name, tasks_list=None, extra_cfg=None):
     return {'name': name, 'tasks': tasks, 'configs': cfgs, 'root': root, 'variants': {'v': []}}
 
 
+def import_string_prefix_scenario():
+    """a task declared by import string `module.Foo` is the class Foo - not a class whose name merely STARTS with `Foo` and stands earlier in the
+    module; the same for excluded_tasks; a wildcard `module.Foo*` names all of them"""
+    import importlib
+    import sys
+    from pathlib import Path
+    from taskchain import Config
+
+    out = []
+    root = scratch.fresh('c08i')
+    modname = f'tcv_prefix_{abs(hash(root)) % 10 ** 8}'
+    try:
+        Path(root, f'{modname}.py').write_text(
+            'from taskchain import Task\n\n\n'
+            'class FooBar(Task):\n    def run(self) -> int:\n        return 2\n\n\n'
+            'class Foo(Task):\n    def run(self) -> int:\n        return 1\n\n\n'
+            'class FooBarBaz(Task):\n    def run(self) -> int:\n        return 3\n')
+        sys.path.insert(0, root)
+        importlib.invalidate_caches()
+        for decl, want in (({'tasks': [f'{modname}.Foo']}, ['foo']), ({'tasks': [f'{modname}.FooBar']}, ['foo_bar']), ({'tasks': [f'{modname}.Foo*']}, ['foo', 'foo_bar', 'foo_bar_baz']),
+                           ({'tasks': [f'{modname}.*'], 'excluded_tasks': [f'{modname}.Foo']}, ['foo_bar', 'foo_bar_baz']), ({'tasks': [f'{modname}.*'], 'excluded_tasks': [f'{modname}.FooBar']}, ['foo', 'foo_bar_baz'])):
+            try:
+                got = sorted(Config(Path(root) / 'd', name='c', data=dict(decl)).chain().tasks)
+            except Exception as e:  # noqa
+                got = f'{type(e).__name__}: {e}'
+            if got != want:
+                out.append(('import-string: chain tasks differ from the declared ones', f'module defines FooBar, Foo, FooBarBaz (in this order); {decl} gives {got}, declared {want}'))
+    finally:
+        if root in sys.path:
+            sys.path.remove(root)
+        sys.modules.pop(modname, None)
+        scratch.drop(root)
+    return out
+
+
+def same_name_classes_scenario():
+    """ONE config declares two different task classes that have the same task name (`Thing` and `ThingTask` both are `thing`): the chain cannot
+    hold both - the conflict is reported at construction, the later one does not silently replace the earlier (in either order)"""
+    from pathlib import Path
+    from taskchain import Config, Task
+
+    class Thing(Task):
+        def run(self) -> int:
+            return 1
+
+    class ThingTask(Task):
+        def run(self) -> int:
+            return 2
+
+    class User(Task):
+        class Meta:
+            input_tasks = [Thing]
+
+        def run(self, thing) -> int:
+            return thing
+
+    out = []
+    root = scratch.fresh('c08n')
+    try:
+        for order in ([Thing, ThingTask, User], [ThingTask, Thing, User], [Thing, User, Thing]):
+            try:
+                ch = Config(Path(root) / 'd', name='c', data={'tasks': order}).chain()
+                held = {n: type(t).__name__ for n, t in ch.tasks.items()}
+                if len({c for c in order}) != len(held):
+                    out.append(('same-name-classes: invalid declaration accepted (two classes, one task name)', f'tasks {[c.__name__ for c in order]}: chain holds {held}, user.value = {ch["user"].value}'))
+            except ValueError:
+                if len(set(order)) == 2:
+                    out.append(('same-name-classes: valid declaration rejected', f'tasks {[c.__name__ for c in order]} (one class named twice)'))
+    finally:
+        scratch.drop(root)
+    return out
+
+
+def rebuilt_chain_scenario():
+    """the chain of one config tree built twice (Config objects named in `uses`, the outer config under a namespace): the same declaration gives the
+    same tasks and edges every time"""
+    from pathlib import Path
+    from taskchain import Config, Task
+
+    class Z(Task):
+        def run(self) -> int:
+            return 1
+
+    class U(Task):
+        class Meta:
+            input_tasks = ['l::z']
+
+        def run(self) -> int:
+            return self.input_tasks['l::z'].value
+
+    out = []
+    root = scratch.fresh('c08b')
+    try:
+        leaf = Config(Path(root) / 'd', name='leaf', namespace='l', data={'tasks': [Z]})
+        mid = Config(Path(root) / 'd', name='mid', namespace='m', data={'tasks': [U], 'uses': [leaf]})
+        top = Config(Path(root) / 'd', name='top', data={'uses': [mid]})
+        seen = []
+        for i in range(3):
+            try:
+                ch = top.chain()
+                seen.append((sorted(ch.tasks), sorted((a.fullname, b.fullname) for a, b in ch.graph.edges)))
+            except Exception as e:  # noqa
+                seen.append(f'{type(e).__name__}: {e}')
+        want = (['m::l::z', 'm::u'], [('m::l::z', 'm::u')])
+        if any(x != want for x in seen):
+            out.append(('rebuilt-chain: the chain of one config tree differs between builds', f'builds 1-3 of top -> mid as m -> leaf as l: {seen}, declared {want}'))
+    finally:
+        scratch.drop(root)
+    return out
+
+
 def inherited_meta_scenario():
     """task classes whose inner `Meta` SUBCLASSES the Meta of their (abstract) base: inputs, abstract flag and group declared there are inherited"""
     import tcv
@@ -272,6 +383,10 @@ def special_family():
             'top': {'medium': 'json', 'tasks': ['Top'], 'values': {}, 'uses': [{'config': 'bundle', 'as': 'e1'}, {'config': 'bundle', 'as': 'e2'}]}}, 'root': 'top', 'variants': {'v': []}})
     tasks = {'A': T('a'), 'B': T('b', inputs=[{'how': 'opt_class', 'ref': 'A', 'default': 1}])}
     out.append(_mounted(tasks, 'as_n', 'undeclared-optional', tasks_list=['B']))
+    # an OPTIONAL input named by class, its class not declared, a grouped task of the same plain name declared: the default is taken
+    tasks = {'Feat': T('features'), 'FeatV2': T('features', 'v2'), 'Model': T('model', inputs=[{'how': 'opt_class', 'ref': 'Feat', 'default': 1}])}
+    for mount in ('root', 'as_n'):
+        out.append(_mounted(tasks, mount, 'optional-class-homonym', tasks_list=['FeatV2', 'Model']))
     return out
 
 
@@ -441,6 +556,12 @@ def run(tier, seed):
     res.add('evaluations', 3)
     for kind, msg in inherited_meta_scenario():
         res.violations.append(Violation(kind, msg, {'inherited_meta': True}))
+    for kind, msg in rebuilt_chain_scenario():
+        res.violations.append(Violation(kind, msg, {'rebuilt_chain': True}))
+    for kind, msg in import_string_prefix_scenario():
+        res.violations.append(Violation(kind, msg, {'import_prefix': True}))
+    for kind, msg in same_name_classes_scenario():
+        res.violations.append(Violation(kind, msg, {'same_name_classes': True}))
     res.coverage['configurations'] = len(fam)
     res.coverage['states'] = len(fam) * 2
     res.coverage['traces_validated_against_impl'] = res.coverage['evaluations']
@@ -459,6 +580,12 @@ def replay(case):
     import tcv
 
     tcv.quiet_library()
+    if case.get('same_name_classes'):
+        return [Violation(k, m, case) for k, m in same_name_classes_scenario()]
+    if case.get('import_prefix'):
+        return [Violation(k, m, case) for k, m in import_string_prefix_scenario()]
+    if case.get('rebuilt_chain'):
+        return [Violation(k, m, case) for k, m in rebuilt_chain_scenario()]
     if case.get('inherited_meta'):
         return [Violation(k, m, case) for k, m in inherited_meta_scenario()]
     if case.get('multichain'):
